@@ -7,7 +7,9 @@
 From Coq Require Import ZArith Reals List Bool QArith.
 From DK Require Import Num NumR NumQ Vec.
 From DK.Model Require Import Leaf Fn Dev Tree Projection ProjectionTree.
-From DK.Proofs Require Import RVec VecAlg C18Proofs C18Cols C18Bridge.
+From DK.Model Require Import PyOps.
+From DK.Gen Require Import Projection.
+From DK.Proofs Require Import RVec VecAlg C18Proofs C18Cols C18Bridge GenProjection.
 Import ListNotations.
 Local Open Scope R_scope.
 
@@ -172,6 +174,50 @@ Theorem C18_dykstra_model_fuel_suffices : forall pa pb ia ib maxiter,
   (forall u, ia u <> POutOfFuel) -> (forall u, ib u <> POutOfFuel) ->
   forall point, dykstra pa pb ia ib maxiter point <> POutOfFuel.
 Proof. exact dykstra_fuel_enough. Qed.
+
+(* ---- the region methods regenerated from projection/projection.py on every run (Gen/Projection.v, translator/stmt_tx.py:
+        if / elif / raise / return, the `while` loop of dykstra_project on explicit fuel, the `for` loop of List.project as a fold)
+        ARE the model the theorems above speak about.  Any carrier unless R is written. ---- *)
+Theorem C18_source_is_in : forall (A : Type) (NA : Num A) tol (proj : list A -> pres (list A)) p,
+  ConvexRegion_is_in tol proj p = is_in_of tol proj p.
+Proof. intros A NA. exact (@gen_is_in A NA). Qed.
+Theorem C18_source_box_project : forall (A : Type) (NA : Num A) (cube : list (A * A)) p, HyperCube_project cube p = box_project cube p.
+Proof. intros A NA. exact (@gen_box_project A NA). Qed.
+(* HalfSpace stores normal/|normal| and offset/|normal| (np.linalg.norm = sqrt <n,n>): constructor + project = the square-root-free model *)
+Theorem C18_source_halfspace : forall n off sg nn oo sg' (p : list R), dot n n <> 0 ->
+  HalfSpace_init norm2 n off sg = POk (nn, oo, sg') -> HalfSpace_project nn oo sg' p = half_project n off sg p.
+Proof. exact gen_halfspace_is_model. Qed.
+Theorem C18_source_slice : forall tol n lw hg lo hi (p : list R), dot n n <> 0 -> Slice_init norm2 n lw hg = POk (lo, hi) ->
+  Slice_project tol (fst (fst lo)) (snd (fst lo)) (snd lo) (fst (fst hi)) (snd (fst hi)) (snd hi) p = slab_project tol n lw hg p
+  /\ Slice_is_in tol (fst (fst lo)) (snd (fst lo)) (snd lo) (fst (fst hi)) (snd (fst hi)) (snd hi) p = slab_is_in tol n lw hg p.
+Proof. exact gen_slice_is_model. Qed.
+Theorem C18_source_constructor_guards : forall n off sg lw hg,
+  (HalfSpace_init norm2 n off sg = PValueError <-> sg = 0) /\ (Slice_init norm2 n lw hg = PValueError <-> hg < lw).
+Proof. exact gen_ctor_guards. Qed.
+Theorem C18_source_intersection_is_in : forall (A : Type) (pa pb : list A -> pres (list A)) ia ib maxiter fuel p,
+  Intersection_is_in pa pb ia ib maxiter fuel p = inter_is_in ia ib p.
+Proof. intros A. exact (@gen_inter_is_in A). Qed.
+(* the Dykstra loop: `y = p = q = c = 0`, test-first `while`, the counter, the final maxiter test - with fuel maxiter + 2 the
+   generated loop is the model's loop, for every behaviour of the two regions (a's projection keeps the length of its argument) *)
+Theorem C18_source_dykstra_loop : forall (A : Type) (NA : Num A) (pa pb : list A -> pres (list A)) ia ib maxiter,
+  (forall x : A, nadd x n0 = x) -> (forall v q, pa v = POk q -> length q = length v) -> forall point,
+  Intersection_dykstra_project pa pb ia ib maxiter (S (S maxiter)) point = dykstra pa pb ia ib maxiter point.
+Proof. intros A NA. exact (@gen_dykstra A NA). Qed.
+Theorem C18_source_intersection_project : forall (A : Type) (NA : Num A) (pa pb : list A -> pres (list A)) ia ib maxiter,
+  (forall x : A, nadd x n0 = x) -> (forall v q, pa v = POk q -> length q = length v) -> forall p,
+  Intersection_project pa pb ia ib maxiter (S (S maxiter)) p = inter_project pa pb ia ib maxiter p.
+Proof. intros A NA. exact (@gen_inter_project A NA). Qed.
+Theorem C18_source_intersection_of_regions : forall tol mi (a b : region R) (p : list R), 0 <= tol -> rwf a ->
+  Intersection_project (rproject tol mi a) (rproject tol mi b) (ris_in tol mi a) (ris_in tol mi b) mi (S (S mi)) p
+  = rproject tol mi (RInter a b) p.
+Proof. exact gen_intersection_of_regions. Qed.
+(* List.project: the in-place row / column loop is the row-wise (column-wise: transpose, project, transpose back) model *)
+Theorem C18_source_list_project : forall (A : Type) (NA : Num A) (proj : region A -> list A -> pres (list A)) rs (axis1 : bool) m,
+  (axis1 = true -> forall r, In r rs -> forall v q, proj r v = POk q -> length q = length v) ->
+  List_project (map proj rs) (if axis1 then 1 else 0)%nat (list_shape rs axis1) m = list_project proj rs axis1 m.
+Proof. intros A NA. exact (@gen_list_is_model A NA). Qed.
+Theorem C18_source_constants : ConvexRegion_tol (A:=R) = 7737125245533627 / 77371252455336267181195264 /\ Intersection_maxiter = 1000%nat.
+Proof. exact gen_constants. Qed.
 
 (* ---- Device / DeviceSet / MFDeviceSet.project, for trees of any depth and fan-out ---- *)
 Theorem C18_tree_structure : forall n t m, twf n t -> mshape (prows t) n m ->
